@@ -906,7 +906,11 @@ func (l *commitLog) checkpointHWLoop() {
 			return
 		}
 		l.mu.RLock()
-		if l.deleted {
+		// Close and Delete hold the write lock while they close the log, so
+		// this also catches a tick that won the select above against the
+		// closed channel: a closed log no longer owns its directory (a
+		// resumed partition has reopened it, or it is gone).
+		if l.deleted || l.IsClosed() {
 			l.mu.RUnlock()
 			return
 		}
